@@ -25,3 +25,18 @@ Definition out_eqb (a b : out) : bool :=
   | OErr x, OErr y => err_eqb x y
   | _, _ => false
   end.
+
+(** [l[i] = a] (no effect when [i] is out of range) *)
+Fixpoint list_set {A} (l : list A) (i : nat) (a : A) : list A :=
+  match l, i with
+  | [], _ => []
+  | _ :: r, O => a :: r
+  | x :: r, S i' => x :: list_set r i' a
+  end.
+
+Fixpoint list_forall2b {A B} (f : A -> B -> bool) (l1 : list A) (l2 : list B) : bool :=
+  match l1, l2 with
+  | [], [] => true
+  | a :: l1, b :: l2 => f a b && list_forall2b f l1 l2
+  | _, _ => false
+  end.
